@@ -257,6 +257,9 @@ func (c *DFACache) Clear() {
 	// Clear map (GC will reclaim memory)
 	c.states = make(map[StateKey]*State)
 	c.stateList = c.stateList[:0]
+	// State IDs are reused after a clear: drop the transition rows so that a recycled
+	// ID starts from InvalidState entries instead of inheriting another state's row.
+	c.flatTrans = c.flatTrans[:0]
 	c.startTable = newStartTableFromByteMap(&c.startTable.byteMap)
 	c.nextID = StateID(c.stride)
 	c.clearCount = 0
@@ -287,6 +290,9 @@ func (c *DFACache) ClearKeepMemory() {
 		delete(c.states, k)
 	}
 	c.stateList = c.stateList[:0]
+	// State IDs are reused after a clear: drop the transition rows so that a recycled
+	// ID starts from InvalidState entries instead of inheriting another state's row.
+	c.flatTrans = c.flatTrans[:0]
 	c.startTable = newStartTableFromByteMap(&c.startTable.byteMap)
 	c.nextID = StateID(c.stride)
 	c.clearCount++
@@ -343,6 +349,9 @@ func (c *DFACache) Reset() {
 		delete(c.states, k)
 	}
 	c.stateList = c.stateList[:0]
+	// State IDs are reused after a clear: drop the transition rows so that a recycled
+	// ID starts from InvalidState entries instead of inheriting another state's row.
+	c.flatTrans = c.flatTrans[:0]
 	c.startTable = newStartTableFromByteMap(&c.startTable.byteMap)
 	c.nextID = StateID(c.stride)
 	c.clearCount = 0
